@@ -198,3 +198,83 @@ def run_r7(F, rep, crate):
                           where, ws, where2, ws2, msg), where, sample={"a": where, "a_writes": ws, "b": where2, "b_writes": ws2})
     rep.floor("C07-R7", "writer/reader pairs compared", n_wr, 11)
     rep.floor("C07-R7", "twin writer pairs compared", n_ww, 8)
+
+
+def run_r8(F, rep, crate, tier="quick"):
+    """C07-R8: the compiler pads each constant to the alignment the loader checks"""
+    from lib.ministmt import Machine, NoEval, Panic
+    rep.rule("C07-R8", "CompileCtx::compile_const pads the blob with align_up(len, align): over the finite table (every alignment ValueKind::align()/ConstElem::align() returns x "
+                      "every length 0..4*align+1) the result is the SMALLEST multiple of align that is >= len (a smaller value overlaps the previous constant, a non-multiple is "
+                      "rejected by the loader's check_alignment, a larger one changes the bytes of every later offset); and the offset recorded in the entry is that padded offset")
+    core = F.syn(crate)
+    aligns = set()
+    for it in core:
+        if it["k"] == "method" and it["name"] == "align" and it.get("body"):
+            for x in walk(it["body"]):
+                if x[0] == "int":
+                    try:
+                        v = int(re.sub(r"[^0-9].*$", "", str(x[1])))
+                        if 0 < v <= 64:
+                            aligns.add(v)
+                    except ValueError:
+                        pass
+    rep.floor("C07-R8", "distinct alignments", len(aligns), 4)
+    fns = [it for it in core if it["k"] == "fn" and it["name"] == "align_up" and it.get("body")]
+    if not rep.check(len(fns) == 1, "C07-R8", "anchor:align_up", "align_up not found (%d)" % len(fns)):
+        return
+    it = fns[0]
+    params = [p[0][1] for p in it["sig"]["inputs"] if is_node(p[0]) and p[0][0] == "pident"]
+    if not rep.check(len(params) == 2, "C07-R8", "anchor:align_up-signature", "align_up no longer takes (offset, align)"):
+        return
+    wrong, n = [], 0
+    undecided = None
+    for a in sorted(aligns):
+        for off in range(0, (4 if tier != "thorough" else 64) * a + 2):
+            m = Machine({params[0]: off, params[1]: a})
+            try:
+                r = m.call(it["body"])
+            except NoEval as e:
+                undecided = str(e)
+                break
+            except Panic as e:
+                wrong.append("align_up(%d, %d) panics (%s)" % (off, a, e))
+                continue
+            n += 1
+            want = ((off + a - 1) // a) * a
+            if r != want:
+                wrong.append("align_up(%d, %d) = %s, expected %d" % (off, a, r, want))
+        if undecided:
+            break
+    if undecided:
+        rep.bad("C07-R8", "align_up:undecided", "align_up could not be evaluated over the table (%s)" % undecided, "align_up (%s)" % crate)
+    else:
+        rep.check(not wrong, "C07-R8", "align_up:smallest-multiple" if not wrong else "align_up:wrong:%s" % re.sub(r"\W+", "-", wrong[0])[:40],
+                  "align_up is not `smallest multiple of align >= offset`: %s%s - constants are written at offsets the loader rejects (ConstantEntryAlignmentError) or that overlap the previous constant" % (
+                      "; ".join(wrong[:3]), " (+%d more)" % (len(wrong) - 3) if len(wrong) > 3 else ""), "align_up (%s)" % crate, sample={"alignments": sorted(aligns), "evaluations": n})
+    rep.floor("C07-R8", "align_up evaluations", n, 20)
+    # the entry records the padded offset, and the blob is resized to it before the bytes are appended
+    cc = [x for x in core if x["k"] == "method" and x["name"] == "compile_const" and x.get("body") and "CompileCtx" in (x.get("self") or "")]
+    if rep.check(len(cc) == 1, "C07-R8", "anchor:CompileCtx::compile_const", "CompileCtx::compile_const not found (%d)" % len(cc)):
+        body = cc[0]["body"]
+        padded = None
+        for st in find(body, "let"):
+            if st[1][0] == "pident" and st[2] is not None and any((path_of(c[1]) or "").endswith("align_up") for c in find(st[2], "call")):
+                padded = st[1][1]
+        offs = [f for s in find(body, "struct") if s[1].split("::")[-1] == "ConstEntry" for f in s[2] if f[0] == "offset"]
+        # accepted: offset is the padded variable itself, or a variable read from `blob.len()` after the resize to the padded offset and before the bytes are appended
+        order = {}
+        for k, st in enumerate(body):
+            txt = render(st[2]) if st[0] == "let" and st[2] is not None else render(st[1]) if st[0] == "expr" else ""
+            if padded and re.search(r"\.resize\(.*\b%s\b" % re.escape(padded), txt):
+                order["resize"] = k
+            if re.search(r"\.extend_from_slice\(|\.extend\(|\.write_all\(", txt) and "extend" not in order:
+                order["extend"] = k
+        offvar = render(offs[0][1]) if len(offs) == 1 else None
+        defk = None
+        for k, st in enumerate(body):
+            if st[0] == "let" and st[1][0] == "pident" and st[1][1] == offvar and st[2] is not None and re.search(r"\.len\(\)", render(st[2])):
+                defk = k
+        ok = padded is not None and offvar is not None and (offvar == padded or (defk is not None and "resize" in order and "extend" in order and order["resize"] < defk < order["extend"]))
+        rep.check(ok, "C07-R8", "compile_const:entry-offset-is-padded-offset",
+                  "compile_const records `%s` as the constant's offset, which is neither the align_up result `%s` nor the blob length read after padding to it and before appending the bytes: "
+                  "the entry points at the padding or into the previous constant" % (offvar, padded), "CompileCtx::compile_const (%s)" % crate)
